@@ -186,6 +186,13 @@ static int run_eq()
     show("any heap A", s1 == x1, false); show("any A heap", x1 == s1, false); show("any new B", s3 == y1, false); show("any B new", y1 == s3, false);
     std_allocator<int, shared_origin> sa(shared_origin{&LA}), sa2(shared_origin{&LA}), sb(shared_origin{&LB});
     show("ref shared(A) shared(A)", sa == sa2, true); show("ref shared(A) shared(B)", sa == sb, false);
+    // type-erased references to shared allocators (stored by value behind the erasure): they know themselves whether they
+    // share their memory -- two handles on the same leaf are equal, handles on different leaves are not
+    shared_origin hA{&LA}, hA2{&LA}, hB{&LB};
+    any_std_allocator<int> e1(hA), e2(hA2), e3(hB);
+    show("any shared(A) shared(A)", e1 == e2, true); show("any shared(A) shared(B)", e1 == e3, false); show("any shared(B) shared(A)", e3 == e1, false);
+    show("any shared(A) A", e1 == x1, false); show("any shared(A) heap", e1 == s1, false);
+    any_std_allocator<long> er(e1); show("any shared(A) rebind(shared(A))", e1 == er, true); show("any shared(B) rebind(shared(A))", e3 == er, false);
     return 0;
 }
 
